@@ -25,6 +25,11 @@ func genC16(r *Rand, tier string) *Case {
 				ops = append(ops, Op{K: "yield"})
 			}
 			c.Programs[key] = &Program{Stmts: []*StmtProg{{Cols: []ColSpec{{Name: "a", OID: pgwire.OIDInt4}}, Ops: ops}}}
+			if r.Chance(1, 6) {
+				// a failing extended message followed by messages that are discarded
+				// until Sync (no handler runs for them, and none may be left pending)
+				steps = append(steps, Step{Msgs: []pgwire.FMsg{{K: "B", S1: "", S2: "never-parsed"}, {K: "E"}, {K: "D", Sub: 'P', S1: ""}, {K: "S"}}})
+			}
 			if r.Chance(1, 4) {
 				steps = append(steps, Step{Msgs: []pgwire.FMsg{{K: "P", S1: "", S2: key}, {K: "B"}, {K: "E"}, {K: "S"}}})
 			} else {
@@ -114,8 +119,8 @@ func closeOracle(c *Case, r *Result) []Violation {
 		}
 	}
 	for t, in := range r.InCmd {
-		if in && t >= 1 && t <= len(r.Conns) {
-			openHandler = true // an admitted command has not finished (e.g. its reply is stuck on a stalled peer)
+		if in && t >= 1 && t <= len(r.Conns) && r.Conns[t-1].Stalled {
+			openHandler = true // an admitted command has not finished: its reply is stuck on a stalled peer
 		}
 	}
 	if !panicked && exited < ncl && !openHandler {
